@@ -10,32 +10,47 @@ package main
 import (
 	"fmt"
 	"regexp"
+	"sort"
 	"strings"
+
+	"golang.org/x/tools/go/ssa"
 )
 
 func ruleStreamSeparators(rule string) func(p *Prog, r *Result) {
 	return func(p *Prog, r *Result) {
 		n := 0
-		for _, cs := range allCalls(p.Funcs) {
-			if cs.Name != "(*regexp.Regexp).Split" || !p.InRepo(cs.Fn) {
+		// the readers: every function of the library that cuts its input with a regular expression (itself or through
+		// a helper it hands the pattern to) and decodes the parts with the YAML or TOML library
+		var readers []*ssa.Function
+		for _, fn := range p.Funcs {
+			pk := fnPkg(fn)
+			if pk == nil || shortPkg(pk.Pkg.Path()) != "bkl" || fn.Parent() != nil {
+				continue
+			}
+			readers = append(readers, fn)
+		}
+		sort.Slice(readers, func(i, j int) bool { return p.FuncName(readers[i]) < p.FuncName(readers[j]) })
+		for _, fn := range readers {
+			sps := splittersOf(p, fn)
+			if len(sps) == 0 {
 				continue
 			}
 			family := ""
-			for _, c2 := range allCalls(samePkgClosure(cs.Fn)) { // the decoder may be called from a helper
-				switch {
-				case strings.HasPrefix(c2.Name, "gopkg.in/yaml.v3.Unmarshal"):
-					family = "yaml"
-				case strings.HasPrefix(c2.Name, "github.com/pelletier/go-toml/v2.Unmarshal"):
-					family = "toml"
-				}
+			fams := codecOf(fn)
+			switch {
+			case fams["yaml"] && !fams["toml"]:
+				family = "yaml"
+			case fams["toml"] && !fams["yaml"]:
+				family = "toml"
 			}
 			if family == "" {
 				continue
 			}
+			sp := sps[0]
 			n++
-			key := p.FuncName(cs.Fn) + " / document separator pattern"
-			pos := p.InstrPos(cs.Instr)
-			pat, ok := p.regexpPattern(cs.Instr.Common().Args[0])
+			key := p.FuncName(fn) + " / document separator pattern"
+			pos := p.InstrPos(sp.site)
+			pat, ok := p.regexpPattern(sp.recv)
 			if !ok {
 				r.Undecided(rule, key, pos, "the pattern is not a package-level regexp.MustCompile(<constant>) assigned once")
 				continue
